@@ -47,7 +47,8 @@ ConvBad(r) ==
         \/ (c = "dom" /\ r.ty \in {"u128", "i128"} /\ r.text.ok /\ r.dom.ok # (IntAccepts(64, TRUE, r.text.b) = "yes" \/ IntAccepts(64, FALSE, r.text.b) = "yes"))
         \/ (c = "tovalue" /\ r.ty # "f32" /\ r.text.ok /\ r.dom.ok /\ ~(d.s.m = "end" /\ ValMatchesU(d.root, r.dom.dump)))
         \/ (c = "tovalue-f32" /\ r.ty = "f32" /\ r.text.ok /\ r.dom.ok /\ ~(d.s.m = "end" /\ ValMatchesU(d.root, r.dom.dump)))
-        \/ (c = "eq" /\ r.ty # "f32" /\ r.text.ok /\ r.dom.ok /\ ~(r.dom.eq_parsed[1] /\ r.dom.eq_parsed[2]))
+        \* (a raw number may hold a literal beyond the range of f64: its text does not parse in the default mode)
+        \/ (c = "eq" /\ r.ty # "f32" /\ r.text.ok /\ r.dom.ok /\ ~d.inf /\ ~(r.dom.eq_parsed[1] /\ r.dom.eq_parsed[2]))
         \/ (c = "back_text" /\ r.text.ok /\ ~(r.back_text.ok /\ r.back_text.same))
         \/ (c = "back_dom" /\ r.dom.ok /\ ~(r.back_dom.ok /\ r.back_dom.same))}
 
